@@ -63,4 +63,12 @@ theorem c08b_zero_read_of_directory_counterexample :
     readView .iour s0 ⟨none, true, false, 0⟩ 0 0 false = .ok ([], 0, false) := by
   refine ⟨by rfl, by rfl⟩
 
+/-- seed C08-b (why `custom_flags` must mask): without the `.difference(OFlags::ACCMODE)` (mask list `[]`),
+`read(true).custom_flags(O_WRONLY|O_NOFOLLOW)` opens write-only and `write(true).custom_flags(O_RDWR|O_NOFOLLOW)`
+yields access mode 3 -/
+theorem unmasked_custom_flags_change_access_mode_counterexample :
+    flagWord [.CLOEXEC, .RDONLY] (keepCustom [] (0o400000 + 1)) % 4 = 1 ∧
+    flagWord [.CLOEXEC, .WRONLY] (keepCustom [] (0o400000 + 2)) % 4 = 3 := by
+  decide
+
 end Compio.Cex.C08
